@@ -40,7 +40,7 @@ def run(ctx):
     ctx.rule = ("3 layout documents (49-115 decision points each: unions, records, functions, nested if / elif / else, let with block "
                 "right-hand side, nested union and string matches, pipelines, lambdas); layouts: every single-point deviation from the "
                 "canonical layout (systematic, enumerated by TLC) and seeded random full layouts (TLC simulation; 150 per document quick, "
-                "1500 thorough); 4 dedent cases with their regrouped documents. distinct = distinct (document, layout vector); "
+                "6000 thorough); 4 dedent cases with their regrouped documents. distinct = distinct (document, layout vector); "
                 "non-trivial = text differs from the canonical rendering")
     ctx.tlc("FoLayoutMC", "FoLayoutMC.cfg", workers=1, timeout=1800)
     docs = layoutdoc.docs()
@@ -52,7 +52,7 @@ def run(ctx):
         canon[i] = text
         ar[i] = arity
     core.write_ndjson(os.path.join(sd, "layout_docs.ndjson"), [{"doc": i, "arity": ar[i]} for i in range(len(docs))])
-    nrand = 1500 if ctx.tier == "thorough" else 150
+    nrand = 6000 if ctx.tier == "thorough" else 150
     r = ctx.tlc("FoLayoutCases", "FoLayoutCases.cfg", workers=1, simulate="num=%d" % (nrand * len(docs)), depth=max(len(a) for a in ar.values()) + 4,
                 seed=ctx.seed, timeout=3000)
     layouts = [(x["doc"], x["choices"]) for x in core.read_ndjson(os.path.join(sd, "layout_single.ndjson"))]
